@@ -988,6 +988,22 @@ class Check(PropertyCheck):
             except ValueError: ok = 0
         return f"reqs {ok} {enc_pairs(blk)} {rq['body_hex']}"
 
+    @staticmethod
+    def _rref_bytes(case, obs):
+        """bytes written to an HTTP/1 client, if the Lean and the Python response-stream readers are to be compared"""
+        if case["cv"] != 1: return None
+        data = unhx(obs["down"].get("bytes_hex", "-"))
+        if not data or b"\n " in data or b"\n\t" in data: return None
+        return data
+
+    @staticmethod
+    def _render_rref(p):
+        if p.stop is not None: return "R:none"
+        out = f"R:some {len(p.messages)}"
+        for m in p.messages:
+            out += f" {m['status']} {hx(m['reason'])} {enc_pairs(m['fields'])} {hx(m['body'])}"
+        return out
+
     def model_lines(self, case):
         if case.get("stream"):
             line = self._streamed_line(case)
@@ -1006,6 +1022,10 @@ class Check(PropertyCheck):
         if key == json.dumps(case, sort_keys=True):
             data = self._ref_bytes(case, obs)
             if data is not None: lines.append("refparse " + hx(data))
+            data = self._rref_bytes(case, obs)
+            if data is not None:
+                method = Src(case, "req").method or b"GET"
+                lines.append(f"refresp {1 if obs['down']['closed'] else 0} {hx(method)} {hx(data)}")
         return lines
 
     def model_obs(self, case, replies):
@@ -1013,6 +1033,7 @@ class Check(PropertyCheck):
             return {"req": replies[0], "resp": None, "ref": None}
         out = {"req": replies[0], "resp": None, "ref": None}
         rest = list(replies[1:])
+        if rest and rest[-1].startswith("R:"): out["rref"] = rest.pop()
         if self._resp_line(case) is not None and rest:
             out["resp"] = rest.pop(0) if replies[0] != "reject" else (rest.pop(0) and "n/a")
         if rest and (rest[-1].startswith("some ") or rest[-1] == "none"): out["ref"] = rest.pop()
@@ -1046,6 +1067,10 @@ class Check(PropertyCheck):
         data = self._ref_bytes(case, obs)
         if data is not None and not case.get("stream"):
             out["ref"] = self._render_ref(ref.parse_requests(data))
+        data = self._rref_bytes(case, obs)
+        if data is not None:
+            method = Src(case, "req").method or b"GET"
+            out["rref"] = self._render_rref(ref.parse_responses(data, methods=[method], eof=obs["down"]["closed"]))
         if obs.get("replays"):
             out["replays"] = []
             for rp in obs["replays"]:
